@@ -68,40 +68,43 @@ def kindEnds (k : Kind) (rp r w : Nat) : List Nat :=
   | .pipeL => [rp]
   | _ => []
 
-/-- what the child of a pipeline / command substitution finds in its (forked) table: the pipe ends the starter
-    opened, at distinct descriptors other than 0 and 1; descriptors 0 and 1 below the soft limit -/
-structure PipeEnds (q : Proc) (rp r w : Nat) : Prop where
-  hr : (fdGet q.fds r).isSome = true
-  hw : fdGet q.fds w = some { label := "pipe" }
-  hp : fdGet q.fds rp = some { label := "pipe" }
-  rw_ne : r ≠ w
-  pr_ne : rp ≠ r
-  pw_ne : rp ≠ w
-  r2 : 2 ≤ r
-  w2 : 2 ≤ w
-  p2 : 2 ≤ rp
-  a0 : fdAllowed q 0 = true
-  a1 : fdAllowed q 1 = true
+/-- does a subshell of this kind get a pipe to the next command / the read end of the previous pipe? -/
+def needsNext : Kind → Bool
+  | .subst | .pipeF | .pipeM => true
+  | _ => false
+def needsPrev : Kind → Bool
+  | .pipeM | .pipeL => true
+  | _ => false
 
-theorem plumb_is_own_calls' (k : Kind) (jc : Bool) (env : Env) (rp r w : Nat) (h : PipeEnds env.system rp r w) :
+/-- What the child of kind `k` finds in its (forked) table: the pipe ends the starter opened FOR THIS KIND, at distinct
+    descriptors other than 0 and 1; the descriptor it is going to overwrite (1 / 0) below the soft limit.  For a pipeline
+    this is what C13's fork loop establishes (`pipeEnds_of_loopInv`, Fork/PipeBridge.lean). -/
+structure PipeEnds (k : Kind) (jc : Bool) (q : Proc) (rp r w : Nat) : Prop where
+  next : needsNext k = true → (fdGet q.fds r).isSome = true ∧ fdGet q.fds w = some { label := "pipe" } ∧ r ≠ w
+    ∧ 2 ≤ r ∧ 2 ≤ w ∧ fdAllowed q 1 = true
+  prev : needsPrev k = true → fdGet q.fds rp = some { label := "pipe" } ∧ 2 ≤ rp ∧ fdAllowed q 0 = true
+  both : needsNext k = true → needsPrev k = true → rp ≠ r ∧ rp ≠ w
+  null : k = .async → jc = false → fdAllowed q 0 = true
+
+theorem plumb_is_own_calls' (k : Kind) (jc : Bool) (env : Env) (rp r w : Nat) (h : PipeEnds k jc env.system rp r w) :
     (∀ m, fdGet (runCalls env.system (plumbCalls k jc rp r w)).fds m
         = if m ∈ kindEnds k rp r w then none else fdGet (plumb k jc env).system.fds m)
     ∧ env.system.SameButFds (runCalls env.system (plumbCalls k jc rp r w)) := by
-  obtain ⟨hr, hw, hp, hrw, hpr, hpw, r2, w2, p2, a0, a1⟩ := h
-  have w1 : w ≠ 1 := by omega
-  have r1 : r ≠ 1 := by omega
-  have p0 : rp ≠ 0 := by omega
-  have out := plumb_out env.system r w _ hw hrw w1 r1 a1
+  obtain ⟨hnext, hprev, hboth, hnull⟩ := h
   cases k with
   | paren => exact ⟨fun m => by simp [plumbCalls, kindEnds, plumb, runCalls_nil], .refl _⟩
   | async =>
     cases jc with
     | true => exact ⟨fun m => by simp [plumbCalls, kindEnds, plumb, runCalls_nil], .refl _⟩
     | false =>
-      have := plumb_null env.system a0
+      have := plumb_null env.system (hnull rfl rfl)
       refine ⟨fun m => ?_, this.2⟩
       simp only [plumbCalls, Bool.false_eq_true, if_false, kindEnds, List.not_mem_nil, plumb, this.1 m, fdGet_fdPut]
   | subst =>
+    obtain ⟨hr, hw, hrw, r2, w2, a1⟩ := hnext rfl
+    have w1 : w ≠ 1 := by omega
+    have r1 : r ≠ 1 := by omega
+    have out := plumb_out env.system r w _ hw hrw w1 r1 a1
     have e : plumbCalls .subst jc rp r w = [.close r, .dup2 w 1, .close w] := by
       simp [plumbCalls, kindPipes, moveToStdinStdout, w1]
     rw [e]
@@ -110,6 +113,10 @@ theorem plumb_is_own_calls' (k : Kind) (jc : Bool) (env : Env) (rp r w : Nat) (h
     simp only [kindEnds, List.mem_cons, List.not_mem_nil, or_false, plumb, fdGet_fdPut]
     by_cases a : m = w <;> by_cases b : m = r <;> simp_all
   | pipeF =>
+    obtain ⟨hr, hw, hrw, r2, w2, a1⟩ := hnext rfl
+    have w1 : w ≠ 1 := by omega
+    have r1 : r ≠ 1 := by omega
+    have out := plumb_out env.system r w _ hw hrw w1 r1 a1
     have e : plumbCalls .pipeF jc rp r w = [.close r, .dup2 w 1, .close w] := by
       simp [plumbCalls, kindPipes, moveToStdinStdout, w1]
     rw [e]
@@ -118,6 +125,8 @@ theorem plumb_is_own_calls' (k : Kind) (jc : Bool) (env : Env) (rp r w : Nat) (h
     simp only [kindEnds, List.mem_cons, List.not_mem_nil, or_false, plumb, fdGet_fdPut]
     by_cases a : m = w <;> by_cases b : m = r <;> simp_all
   | pipeL =>
+    obtain ⟨hp, p2, a0⟩ := hprev rfl
+    have p0 : rp ≠ 0 := by omega
     have e : plumbCalls .pipeL jc rp r w = [.dup2 rp 0, .close rp] := by
       simp [plumbCalls, kindPipes, moveToStdinStdout, p0]
     rw [e]
@@ -126,6 +135,13 @@ theorem plumb_is_own_calls' (k : Kind) (jc : Bool) (env : Env) (rp r w : Nat) (h
     rw [inn.1 m]
     simp only [kindEnds, List.mem_cons, List.not_mem_nil, or_false, plumb, fdGet_fdPut]
   | pipeM =>
+    obtain ⟨hr, hw, hrw, r2, w2, a1⟩ := hnext rfl
+    obtain ⟨hp, p2, a0⟩ := hprev rfl
+    obtain ⟨hpr, hpw⟩ := hboth rfl rfl
+    have w1 : w ≠ 1 := by omega
+    have r1 : r ≠ 1 := by omega
+    have p0 : rp ≠ 0 := by omega
+    have out := plumb_out env.system r w _ hw hrw w1 r1 a1
     have e : plumbCalls .pipeM jc rp r w = [.close r, .dup2 w 1, .close w] ++ [.dup2 rp 0, .close rp] := by
       simp [plumbCalls, kindPipes, moveToStdinStdout, w1, p0]
     rw [e, runCalls_app]
@@ -142,7 +158,6 @@ theorem plumb_is_own_calls' (k : Kind) (jc : Bool) (env : Env) (rp r w : Nat) (h
     simp only [kindEnds, List.mem_cons, List.not_mem_nil, or_false, plumb, fdGet_fdPut]
     by_cases a : m = w <;> by_cases b : m = r <;> by_cases c : m = rp <;> by_cases d : m = 0 <;> by_cases e1 : m = 1 <;>
       simp_all <;> omega
-
 
 theorem plumb_fds_congr (k : Kind) (jc : Bool) (e1 e2 : Env) (h : e1.system.fds = e2.system.fds) :
     (plumb k jc e1).system.fds = (plumb k jc e2).system.fds := by
